@@ -86,7 +86,7 @@ pub fn main_campaign() -> SimCampaign {
 
 pub fn plan(_tier: Tier) -> Plan {
     Plan {
-        campaigns: vec![Box::new(main_campaign())],
+        campaigns: vec![Box::new(crate::fuzzdec::FuzzReplay("fuzz_router_events", "router_events")), Box::new(main_campaign())],
         enumerators: vec![],
         rule: "Histories over the widest alphabet: every op of the other broker properties plus packets out of place (acks with arbitrary ids, PUBREL without PUBLISH, CONNECT/CONNACK/SUBACK mid-session, SUBSCRIBE to `$x`, `$share/g/f`, `$share/` without path, empty and invalid filters, arbitrary Unicode filters, subscription id 0), PUBLISH with topics as raw bytes (invalid UTF-8, empty, multi-byte first character, wildcards), forged / stale Ready, DeviceData, Disconnect and Shadow events for live, never-registered (7, 10^6, usize::MAX) and already-removed connection ids, late events of finished connections before/after their slot is reused, PublishWill for unknown ids, meter/alert ticks with kept and dropped receivers, persistent and clean sessions, shared groups, takeover. Oracle: every router turn runs under catch_unwind (a panic is a violation); after every turn the five per-connection slabs have identical key sets and connection_map is a bijection onto them; the router reaches quiescence within 20 000 turns; afterwards a fresh subscriber and a fresh publisher are served (connect, subscribe, QoS 1 publish forwarded and acknowledged). Non-trivial: >=1 stale/forged event, malformed or unsolicited packet, multi-byte-first-character topic/filter, or a shared group losing a member — and the router survived.".into(),
         assumptions: vec![
